@@ -418,6 +418,21 @@ func (a *w3Analysis) retention(files []*w3File) {
 		"~^r([0-9]+)$": mk("~^r([0-9]+)$", dRe),
 	}
 	delOf := map[string]time.Duration{"cam": dCam, "cam2": 0, "cam/sub": dCam, "r1": dRe, "r22": dRe, "other": -1}
+	// static entries that override the regular expression for one name: keep forever, or another delay
+	confs["r5"] = mk("r5", 0)
+	delOf["r5"] = 0
+	dR7 := dur()
+	confs["r7"] = mk("r7", dR7)
+	delOf["r7"] = dR7
+	dAll := time.Duration(0)
+	if rng.Intn(2) == 0 {
+		// a catch-all entry: unconfigured names get its delay, names with their own entry keep theirs
+		dAll = dur()
+		all := mk("all_others", dAll)
+		all.Regexp = regexp.MustCompile("^.*$")
+		confs["all_others"] = all
+		delOf["other"] = dAll
+	}
 	payload := []byte("not a real segment")
 	if len(files) > 0 {
 		payload = files[0].data
@@ -437,7 +452,7 @@ func (a *w3Analysis) retention(files []*w3File) {
 		}
 		planted = append(planted, w3Planted{path: filepath.Join(root, "cam", f.name), segment: true, owner: "cam", start: st.Truncate(time.Microsecond), kind: "recorded"})
 	}
-	for _, owner := range []string{"cam", "cam2", "cam/sub", "r1", "r22", "other"} {
+	for _, owner := range []string{"cam", "cam2", "cam/sub", "r1", "r22", "r5", "r7", "other"} {
 		d := delOf[owner]
 		if d <= 0 {
 			d = dCam
@@ -463,8 +478,8 @@ func (a *w3Analysis) retention(files []*w3File) {
 	tStart := time.Now()
 	cl.Initialize()
 	interval := 30 * time.Minute
-	for _, d := range []time.Duration{dCam, dRe} {
-		if d/2 < interval {
+	for _, d := range []time.Duration{dCam, dRe, dR7, dAll} {
+		if d > 0 && d/2 < interval {
 			interval = d / 2
 		}
 	}
